@@ -376,7 +376,13 @@ pub fn check_value(rec: &Rec, chunk: usize, ctx: &mut Ctx) -> Result<(), Failure
             let s = &buf[16..16 + l];
             if l < len {
                 match r {
-                    Err(e) if e.required_len == len && e.len == l => {}
+                    Err(e) if e.required_len == len && e.len == l => {
+                        // the error also says where: the header itself, starting at the slice start
+                        let want = if matches!(val, Val::Eth2(_)) { "Ethernet2Header" } else { "LinuxSllHeader" };
+                        if e.layer_start_offset != 0 || format!("{:?}", e.layer) != want {
+                            return cx.fail(ctx, "write_to_slice", "space-error-location", "", format!("slice of {} bytes for an encoding of {}: error names layer {:?} at offset {} (the {} starts at offset 0 of the slice)", l, len, e.layer, e.layer_start_offset, want));
+                        }
+                    }
                     Err(e) => return cx.fail(ctx, "write_to_slice", "space-error-lengths", "", format!("slice of {} bytes for an encoding of {}: error says required {} / available {}", l, len, e.required_len, e.len)),
                     Ok(_) => return cx.fail(ctx, "write_to_slice", "ok-despite-short-slice", "", format!("slice of {} bytes for an encoding of {}", l, len)),
                 }
